@@ -130,6 +130,11 @@ def run_shard(prop_id, sub_name, tier, seed, shard, n_examples, budget_s, shrink
                 kf = match_finding(mod, prop_id, sub_name, case, v)
                 if kf:
                     stats["excluded_known"][kf] += 1
+                    if os.environ.get("KVERIF_DUMP_KNOWN") and stats["excluded_known"][kf] <= 2:
+                        d = os.path.join(HOME, "failures", prop_id)
+                        os.makedirs(d, exist_ok=True)
+                        with open(os.path.join(d, f"known-{kf}-{case_hash(case)}.json"), "w") as fh:
+                            fh.write(canon({"property": prop_id, "subcheck": sub_name, "facet": v.facet, "detail": v.detail, "case": case}))
                     return None
                 return {"case": case, "facet": v.facet, "detail": v.detail, "observed": v.observed, "expected": v.expected}
             stats["evaluations"] += 1
